@@ -1,0 +1,58 @@
+//go:build verif
+
+// Contracts for contract-based deductive verification (govc, /verif).
+// This file contains comments only; it adds no code to the package.
+
+package traversal
+
+//@ opaque github.com/gauss-project/aurorafs/pkg/boson.Address as Addr
+
+//@ # ---- assumed: addresses, chunks, the BMT writer --------------------------------------------------
+//@ spec func addrBytes(a boson.Address) Bytes
+//@ spec func hexBytes(s string) Bytes
+//@ spec func strOf(a boson.Address) string = pure("(github.com/gauss-project/aurorafs/pkg/boson.Address).String", a)
+//@ axiom hex-of-address-string: forall a boson.Address :: hexBytes(strOf(a)) == addrBytes(a)
+//@ extern func github.com/gauss-project/aurorafs/pkg/boson.ParseHexAddress
+//@   ensures err == nil ==> addrBytes(a) == hexBytes(s)
+//@   assigns nothing
+//@ extern func (github.com/gauss-project/aurorafs/pkg/boson.Address).Bytes
+//@   ensures seq(result) == addrBytes(a)
+//@   assigns nothing
+//@ spec func chunkData(c int) Bytes
+//@ spec func chunkLen(c int) int
+//@ spec func chunkAddr(c int) boson.Address
+//@ extern func github.com/gauss-project/aurorafs/pkg/boson.NewChunk
+//@   ensures result != nil && chunkAddr(ref(result)) == addr && chunkData(ref(result)) == seq(data) && chunkLen(ref(result)) == len(data)
+//@   assigns nothing
+//@ # the BMT writer hashes span (first 8 bytes) and data; its hasher takes at most a chunk of data and
+//@ # silently drops the rest (C04's hasher model): bmtTrunc is what it computes, bmtExact the chunk hash
+//@ spec func bmtExact(payload Bytes) Bytes
+//@ spec func bmtTrunc(payload Bytes) Bytes
+//@ extern func (github.com/gauss-project/aurorafs/pkg/file/pipeline.ChainWriter).ChainWrite
+//@   requires arg0 != nil
+//@   assigns arg0.Ref
+//@   ensures result == nil ==> len(arg0.Data) >= 8 && seq(arg0.Ref) == bmtTrunc(seq(arg0.Data)) && (len(arg0.Data) <= 262144 + 8 ==> bmtTrunc(seq(arg0.Data)) == bmtExact(seq(arg0.Data)))
+//@ extern func github.com/gauss-project/aurorafs/pkg/file/pipeline/bmt.NewBmtWriter
+//@   ensures result != nil
+//@   assigns nothing
+
+//@ # a pyramid entry is a valid content-addressed chunk for its key
+//@ spec func entryValid(k string, d []byte) bool = 8 <= len(d) && len(d) <= 262144 + 8 && bmtExact(seq(d)) == hexBytes(k)
+
+//@ # the traversal over the pyramid reads it only through pyramid.Get, which records keys of the
+//@ # pyramid and changes nothing else (assumed for the manifest / joiner code in between)
+//@ func (*service).GetChunkHashes$3
+//@   trusted
+//@   ensures pyramid != nil ==> p.data == old(p.data) && p.seen != nil && forall k string :: present(p.seen, k) ==> present(p.data, k)
+//@   ensures forall k string :: (present(pyramid, k) <==> old(present(pyramid, k))) && pyramid[k] == old(pyramid[k])
+//@   note the traversal results (hashes, pieces: named results of the enclosing function, written by the per-file callback) are not modelled; no obligation below mentions them
+//@   assigns p.seen
+
+//@ func (*service).GetChunkHashes
+//@   property C06
+//@   requires s != nil && s.store != nil
+//@   # only verified pyramid entries reach the local store
+//@   callassert Putter.Put only-valid-chunks-are-stored: len($chs) == 1 && $chs[0] != nil && 8 <= chunkLen(ref($chs[0])) && chunkLen(ref($chs[0])) <= 262144 + 8 && bmtExact(chunkData(ref($chs[0]))) == addrBytes(chunkAddr(ref($chs[0])))
+//@   loop 1 invariant err == nil && pyramid != nil && forall k string :: visited(k) ==> entryValid(k, pyramid[k])
+//@   loop GetChunkHashes$2.1 invariant err == nil && p != nil && p.seen != nil && p.data == pyramid && forall k string :: present(pyramid, k) ==> entryValid(k, pyramid[k])
+//@   loop GetChunkHashes$2.1 invariant forall k string :: present(p.seen, k) ==> present(pyramid, k)
